@@ -293,7 +293,7 @@ pub struct StrCase {
     pub s: String,
 }
 
-fn total_check(c: &StrCase) -> CheckResult {
+pub fn total_check(c: &StrCase) -> CheckResult {
     match parse_query_text(&c.s) {
         Ok(()) => {
             // a parsed query must also evaluate without panicking
